@@ -153,115 +153,121 @@ def _running_max_names(f: Func, records: str) -> Dict[str, str]:
 
 
 def extract(prog: Program) -> FftTable:
+    """Decision table of prepare_fft_settings from its path table: every store of the FFT length with the case it belongs to."""
+    from ..pathtable import PathTable, literals, same_rel, negate, flatten_cases
     f = prog.func("processing.prepare_fft_settings")
     if len(f.params) < 2:
         raise AnalysisError("prepare_fft_settings: expected (records, settings)")
     records, settings = f.params[0], f.params[1]
     ok_np2, np2_detail = _check_nextpow2(prog)
     mnames = _running_max_names(f, records)
+    # max(<generator over records>[, default=0]) with keywords is also a maximum over all records
+    for st in f.node.body:
+        if isinstance(st, ast.Assign) and len(st.targets) == 1 and isinstance(st.targets[0], ast.Name) and isinstance(st.value, ast.Call) \
+                and call_name(st.value) == "max" and len(st.value.args) == 1 and isinstance(st.value.args[0], (ast.GeneratorExp, ast.ListComp)):
+            c = st.value.args[0]
+            g = c.generators[0]
+            dflt = kwarg(st.value, "default")
+            if isinstance(g.iter, ast.Name) and g.iter.id == records and not g.ifs and "n_samples" in unparse(c.elt) \
+                    and (dflt is None or (isinstance(dflt, ast.Constant) and dflt.value == 0)):
+                mnames.setdefault(st.targets[0].id, f"max over {records} ({unparse(c.elt)})")
     if not mnames:
         raise AnalysisError("prepare_fft_settings: the maximum record length over all records is not computed "
                             "in a recognised form (running maximum / max(generator))")
-    sym: Dict[str, sp.Expr] = {n: M for n in mnames}
-    g_name = prev_name = None
-    prev_default = None
-    for st in own_nodes(f.node):
-        if isinstance(st, ast.Assign) and len(st.targets) == 1 and isinstance(st.targets[0], ast.Name):
-            t, v = st.targets[0].id, st.value
-            if isinstance(v, ast.Call) and call_name(v) == "nextpow2" and v.args and isinstance(v.args[0], ast.Name) \
-                    and v.args[0].id in mnames:
-                sym[t] = G if ok_np2 else sp.Symbol("g_unchecked", positive=True)
-                g_name = t
-            elif isinstance(v, ast.Call) and call_name(v) == "get" and isinstance(v.func, ast.Attribute) \
-                    and _is_settings_fft(v.func.value, settings) and v.args \
-                    and isinstance(v.args[0], ast.Constant) and v.args[0].value == "n":
-                sym[t] = U
-                prev_name = t
-                if len(v.args) > 1:
-                    prev_default = _tr(v.args[1], sym)
-            elif isinstance(v, ast.Subscript) and _is_settings_fft(v.value, settings) \
-                    and isinstance(v.slice, ast.Constant) and v.slice.value == "n":
-                sym[t] = U
-                prev_name = t
+    R = lambda n: sp.Symbol(n, real=True)   # noqa: E731
+    FS = sp.Function("attr_fft_settings")(R(settings))
+    NONE = sp.Symbol("None")
+    gi = sp.Function("getitem")
+    KEY = sp.Symbol("'n'")
 
+    def hook(call, T):
+        nm = call_name(call)
+        if nm == "nextpow2" and call.args:
+            a = T.tr(call.args[0])
+            return sp.Function("nextpow2")(a)
+        if nm == "max" and isinstance(call.func, ast.Name) and len(call.args) == 1 and isinstance(call.args[0], (ast.GeneratorExp, ast.ListComp)):
+            return sp.Function("max_over_records")(sp.Symbol(unparse(call.args[0].elt)))
+        return None
+    pt = PathTable(prog, f.module, structured=True, call_hook=hook, opaque=("nextpow2",))
+    leaves = pt.leaves(f.node.body)
     stores: List[Store] = []
+    prev_default = None
 
-    def cond_kind(test: ast.AST) -> Tuple[str, bool]:
-        """('fs_none'|'prev_none', value of test when the subject IS None)"""
-        if isinstance(test, ast.Compare) and len(test.ops) == 1 and isinstance(test.comparators[0], ast.Constant) \
-                and test.comparators[0].value is None and isinstance(test.ops[0], (ast.Is, ast.IsNot, ast.Eq, ast.NotEq)):
-            pos = isinstance(test.ops[0], (ast.Is, ast.Eq))
-            if _is_settings_fft(test.left, settings):
-                return "fs_none", pos
-            if isinstance(test.left, ast.Name) and test.left.id == prev_name:
-                return "prev_none", pos
-        raise AnalysisError(f"prepare_fft_settings: unrecognised guard `{unparse(test)}`")
-
-    def walk(stmts, conds):
-        for st in stmts:
-            if isinstance(st, ast.If):
-                k, pos = cond_kind(st.test)
-                walk(st.body, conds + [(k, pos)])
-                walk(st.orelse, conds + [(k, not pos)])
-            elif isinstance(st, ast.Assign) and len(st.targets) == 1:
-                t = st.targets[0]
-                if _is_settings_fft(t, settings):
-                    v = st.value
-                    nval = None
-                    if isinstance(v, ast.Call) and call_name(v) == "dict":
-                        nval = kwarg(v, "n")
-                    elif isinstance(v, ast.Dict):
-                        for kk, vv in zip(v.keys, v.values):
-                            if isinstance(kk, ast.Constant) and kk.value == "n":
-                                nval = vv
-                    if nval is None:
-                        raise AnalysisError(f"prepare_fft_settings: `{norm_key(st)}` stores fft_settings without n")
-                    stores.append(Store(st, nval, _tr(nval, sym), list(conds), "dict"))
-                elif isinstance(t, ast.Subscript) and _is_settings_fft(t.value, settings) \
-                        and isinstance(t.slice, ast.Constant) and t.slice.value == "n":
-                    stores.append(Store(st, st.value, _tr(st.value, sym), list(conds), "key"))
-            elif isinstance(st, (ast.For, ast.While, ast.With, ast.Try)):
-                for sub in ast.walk(st):
-                    if isinstance(sub, ast.Assign) and any(
-                            _is_settings_fft(t, settings) or (isinstance(t, ast.Subscript) and _is_settings_fft(t.value, settings))
-                            for t in sub.targets):
-                        raise AnalysisError("prepare_fft_settings: store of the fft length inside a loop/with/try")
-    walk(f.node.body, [])
-    return FftTable(f, stores, next(iter(mnames)), g_name, prev_name, prev_default, ok_np2, np2_detail,
+    def canon(v, l):
+        """Map the names of the function onto (M, G, U)."""
+        sub = {}
+        for nm in mnames:
+            val = l.env.get(nm)
+            if val is not None:
+                sub[val] = M
+            sub[R(nm)] = M
+        v = v.xreplace(sub)
+        v = v.replace(lambda e: getattr(getattr(e, "func", None), "__name__", "") == "max_over_records", lambda e: M)
+        v = v.replace(lambda e: getattr(getattr(e, "func", None), "__name__", "") == "nextpow2" and e.args[0] == M,
+                      lambda e: G if ok_np2 else sp.Symbol("g_unchecked", positive=True))
+        v = v.replace(lambda e: getattr(getattr(e, "func", None), "__name__", "") == "get" and len(e.args) >= 2 and e.args[0] == FS and e.args[1] == KEY, lambda e: U)
+        v = v.xreplace({gi(FS, KEY): U})
+        v = v.replace(lambda e: getattr(getattr(e, "func", None), "__name__", "") == "int" and len(e.args) == 1, lambda e: e.args[0])
+        return v
+    for l in leaves:
+        for e in l.events:
+            if e[0] != "store":
+                continue
+            st = e[3]
+            val = None
+            kind = None
+            if id(st) in l.store_at and l.store_at[id(st)] == (FS, KEY):
+                val, kind = e[2], "key"
+            elif isinstance(st, ast.Assign) and _is_settings_fft(st.targets[0], settings):
+                kind = "dict"
+                v = e[2]
+                if getattr(getattr(v, "func", None), "__name__", "") == "dict":
+                    for a in v.args:
+                        if getattr(a.func, "__name__", "") == "kv_n":
+                            val = a.args[0]
+                if val is None:
+                    raise AnalysisError(f"prepare_fft_settings: `{norm_key(st)}` stores fft_settings without n")
+            if val is None:
+                continue
+            for lits, v in flatten_cases(literals(l), val):
+                conds: List[Tuple[str, bool]] = []
+                extra = []
+                for x in lits:
+                    cx = canon(x, l) if hasattr(x, "xreplace") else x
+                    if same_rel(cx, sp.Eq(FS, NONE, evaluate=False)):
+                        conds.append(("fs_none", True))
+                    elif same_rel(cx, sp.Ne(FS, NONE, evaluate=False)):
+                        conds.append(("fs_none", False))
+                    elif same_rel(cx, sp.Eq(U, NONE, evaluate=False)):
+                        conds.append(("prev_none", True))
+                    elif same_rel(cx, sp.Ne(U, NONE, evaluate=False)):
+                        conds.append(("prev_none", False))
+                    else:
+                        extra.append(cx)
+                cv = canon(v, l)
+                # comparisons of the previous length with G / M taken on the path: use them when bounding the value
+                for x in extra:
+                    if isinstance(x, (sp.Ge, sp.Gt)) and x.lhs == U and x.rhs in (G, M):
+                        cv = cv.xreplace({U: x.rhs + sp.Symbol("e", positive=True)})
+                    elif isinstance(x, (sp.Ge, sp.Gt)) and x.rhs == U and x.lhs in (G, M):
+                        pass
+                    else:
+                        raise AnalysisError(f"prepare_fft_settings: unrecognised guard `{x}`")
+                bad = [a for a in cv.free_symbols if a not in (M, D, U) and a.name != "e"]
+                if bad or cv.has(NONE):
+                    raise AnalysisError(f"prepare_fft_settings: name `{bad[0] if bad else 'None'}` in a stored fft length is not classified ({cv})")
+                stores.append(Store(st, st.value, cv, conds, kind))
+    # default used when the key is absent
+    for st in own_nodes(f.node):
+        if isinstance(st, ast.Call) and call_name(st) == "get" and len(st.args) > 1 and isinstance(st.args[0], ast.Constant) and st.args[0].value == "n":
+            prev_default = unparse(st.args[1])
+    # de-duplicate identical rows (several paths through unrelated branches)
+    uniq: List[Store] = []
+    for s_ in stores:
+        if not any(u.stmt is s_.stmt and u.value == s_.value and u.conds == s_.conds for u in uniq):
+            uniq.append(s_)
+    return FftTable(f, uniq, next(iter(mnames)), None, None, prev_default, ok_np2, np2_detail,
                     "; ".join(f"{k}: {v}" for k, v in mnames.items()))
-
-
-def _tr(node: ast.AST, sym: Dict[str, sp.Expr]) -> sp.Expr:
-    if isinstance(node, ast.Name):
-        if node.id in sym:
-            return sym[node.id]
-        raise AnalysisError(f"prepare_fft_settings: name `{node.id}` in a stored fft length is not classified")
-    if isinstance(node, ast.Constant) and isinstance(node.value, (int, float)) and not isinstance(node.value, bool):
-        return sp.Integer(node.value) if isinstance(node.value, int) else sp.Float(node.value)
-    if isinstance(node, ast.IfExp) and isinstance(node.test, ast.Compare) and len(node.test.ops) == 1:
-        a, op, b = _tr(node.test.left, sym), node.test.ops[0], _tr(node.test.comparators[0], sym)
-        x, y = _tr(node.body, sym), _tr(node.orelse, sym)
-        if isinstance(op, (ast.Gt, ast.GtE)):
-            if x == a and y == b:
-                return sp.Max(a, b)
-            if x == b and y == a:
-                return sp.Min(a, b)
-        if isinstance(op, (ast.Lt, ast.LtE)):
-            if x == a and y == b:
-                return sp.Min(a, b)
-            if x == b and y == a:
-                return sp.Max(a, b)
-        raise AnalysisError(f"prepare_fft_settings: conditional `{unparse(node)}` is neither max nor min")
-    if isinstance(node, ast.Call) and call_name(node) in ("max", "maximum") and len(node.args) >= 2:
-        return sp.Max(*[_tr(a, sym) for a in node.args])
-    if isinstance(node, ast.Call) and call_name(node) in ("min", "minimum") and len(node.args) >= 2:
-        return sp.Min(*[_tr(a, sym) for a in node.args])
-    if isinstance(node, ast.Call) and call_name(node) == "int" and len(node.args) == 1:
-        return _tr(node.args[0], sym)
-    if isinstance(node, ast.BinOp) and isinstance(node.op, (ast.Add, ast.Sub, ast.Mult)):
-        a, b = _tr(node.left, sym), _tr(node.right, sym)
-        return {ast.Add: a + b, ast.Sub: a - b, ast.Mult: a * b}[type(node.op)]
-    raise AnalysisError(f"prepare_fft_settings: cannot translate stored fft length `{unparse(node)}`")
 
 
 def never_truncates(v: sp.Expr) -> bool:
